@@ -32,6 +32,15 @@ def coq_path(p):
 
 
 def run(chk, tier):
+    try:
+        return _run(chk, tier)
+    except Exception as e:
+        import traceback
+        chk.broken_obligation('correspondence:sortkey-harness-exception', traceback.format_exc()[-900:])
+        return {'sortkey_cases': 0}
+
+
+def _run(chk, tier):
     r = chk.rng
     n = 150 if tier == 'quick' else 1500
     cases = [gen_paths(r) for _ in range(n)]
